@@ -94,6 +94,14 @@ class Build:
         rc2, pout = sh(['coqc', '-Q', '.', 'Sia', pv], cwd=cdir, timeout=1200)
         return (ok and rc2 == 0), pout, out
 
+    def coqchk(self, prop):
+        """independent re-check of the compiled library behind Props/<prop> (thorough tier); prints the axioms it relies on"""
+        cdir = self.root + '/coq'
+        rc, out = sh('timeout 5400 coqchk -silent -o -Q . Sia Sia.Props.%s 2>&1' % prop, cwd=cdir, timeout=5500)
+        m = re.search(r'\* Axioms:(.*?)\n\s*\n', out, re.S)
+        axioms = (m.group(1).strip() if m else '?')
+        return rc == 0, axioms, out[-1500:]
+
     def model(self):
         """extraction + OCaml driver"""
         odir, cdir = self.root + '/ocaml', self.root + '/coq'
@@ -213,6 +221,9 @@ def main(root, argv):
         coq_ok, pout, mout = b.coq(prop)
         mod_ok, mod_out = b.model()
         har_ok, har_out = b.harness(race=meta.get('race', False))
+        chk = None
+        if tier == 'thorough' and coq_ok:
+            chk = b.coqchk(prop)
     finally:
         fcntl.flock(lock, fcntl.LOCK_UN)
 
@@ -229,6 +240,8 @@ def main(root, argv):
         errs = re.findall(r'File "\./([^"]+)", line (\d+).*?\n(Error:.*?)(?:\n\n|\nmake)', mout, re.S)
         broken.append('proof obligations for %s no longer check (Props/%s.v or a file it depends on):\n%s\n%s' %
                       (prop, prop, '\n'.join('%s:%s %s' % e for e in errs[:10]), pout[-2000:]))
+    if chk is not None and not chk[0]:
+        broken.append('coqchk rejects the compiled library behind Props/%s:\n%s' % (prop, chk[2]))
     if not mod_ok:
         broken.append('model build: ' + mod_out[-3000:])
     if not har_ok:
@@ -318,6 +331,8 @@ def main(root, argv):
         'known_findings_reproduced': known_printed,
         'violations_attributed_to_other_properties': sorted(set(other)),
     }
+    if chk is not None:
+        cov['notes'] = list(cov['notes']) + ['coqchk -silent -o on Sia.Props.%s and everything it depends on: %s; axioms: %s' % (prop, 'accepted' if chk[0] else 'REJECTED', chk[1])]
     if stats.get('exhaustive'):
         cov['exhaustive'] = True
     ev = {'property_id': prop, 'tier': tier, 'seed': seed, 'level': 'proof', 'coverage': cov,
